@@ -1406,6 +1406,8 @@ class Interp:
                     return self.namedtuple_items(obj, node)[key]
                 except IndexError:
                     raise RaiseSignal('IndexError', node, self.where(node), ('tuple index out of range',)) from None
+        if hasattr(obj, 'vp_index'):
+            return obj.vp_index(key)  # an object provided by a model: it knows how to be indexed by abstract keys
         if isinstance(key, Opaque | SVar):
             return Opaque('⊤ index')
         if obj is None:
